@@ -46,8 +46,9 @@ func universe(n int) []*triple.Triple {
 		model.T(a, W, il(2)),
 		model.T(a, W, il(-3)),
 		model.T(b, W, il(5)),
-		model.T(a, F, fl(0.5)),
-		model.T(b, F, fl(-1.25)),
+		// two float64 values closer than any fixed number of decimals keeps apart: two groups, two distinct values
+		model.T(a, F, fl(-0.5)),
+		model.T(b, F, fl(-0.5000001)),
 		// the same instant written in two zones: one predicate value, hence one group / one distinct value
 		model.T(a, model.PT("t", zt.In(time.FixedZone("", 3600))), il(1)),
 		model.T(b, model.PT("t", zt.In(time.UTC)), il(1)),
